@@ -168,6 +168,12 @@ def run(ctx: Ctx):
             want = [nodes[i - 1] for i in idxs]
             if len(got) != len(want) or any(a is not b for a, b in zip(got, want)):
                 ctx.fail("P:C20:walk-by-name", {"t": t, "name": q}, [c.name for c in got], idxs)
+        for name, idxs in v["walks"].items():
+            # both restrictions in one call: the components of that name that also satisfy the predicate
+            got = root.walk(name, select=lambda c: "SUMMARY" in c)
+            want = [nodes[i - 1] for i in idxs if t["pr"][i - 1] != "none"]
+            if len(got) != len(want) or any(a is not b for a, b in zip(got, want)):
+                ctx.fail("P:C20:walk-by-name", {"t": t, "name": name, "with_select": True}, [c.name for c in got], [i for i in idxs if t["pr"][i - 1] != "none"])
         got = root.walk(select=lambda c: "SUMMARY" in c)
         want = [nodes[i - 1] for i in v["pre"] if t["pr"][i - 1] != "none"]
         if len(got) != len(want) or any(a is not b for a, b in zip(got, want)):
